@@ -2279,9 +2279,18 @@ def check_C08(ctx):
         ctx.bump("malformed_" + k_, v)
     # rejected FEN keeps the current position
     keep_ops = []
+    # `position` trims white space and an optional `fen ` keyword before loading: a string the loader rejects only
+    # because of surrounding blanks (or because it starts with that keyword) becomes a valid FEN on this path and
+    # rightly replaces the position - use rejected strings that stay rejected after that preprocessing
+    def still_bad(m):
+        t = m.strip()
+        if t.startswith(b"fen "):
+            t = t[4:].strip()
+        return t != m
+    rejected = [m for m, g in zip(muts, go2) if g == "fenerr" and not still_bad(m) and b"moves" not in m]
     for _ in range(ctx.size(60, 1500)):
         good = rng.choice(valid)
-        bad = rng.choice([m for m, g in zip(muts, go2) if g == "fenerr"] or [b"x"])
+        bad = rng.choice(rejected or [b"x"])
         keep_ops += [f"uci\tposition {good}", "ucihex\t" + (b"position " + bad).hex()]
     kr = run_batch(HDRV, keep_ops, shards=1)
     ctx.co["co_fen_keep"] = len(keep_ops) // 2
